@@ -117,6 +117,9 @@ _SER = ["leaf_ser_finished", "leaf_ser_cke_unknown", "leaf_ser_cke_dh", "leaf_se
         "leaf_ser_client_hello_min", "leaf_ser_client_hello_full", "leaf_ser_server_hello_min", "leaf_ser_server_hello_full",
         "leaf_ser_server_hello_d18_min", "leaf_ser_server_hello_d18_full", "leaf_ser_ext_sni", "leaf_ser_ext_max_fragment_length",
         "leaf_ser_length_u24", "leaf_ser_length_u16"] + ["fd_ser_unsupported_%d" % k for k in (0, 1, 2, 3, 5, 6, 8, 9, 10)]
+_SER_SHIMS = ["shim_cf_bytes", "shim_cf_tuple"]
+HARNESS["shim_cf_bytes"] = dict(kind="shim", proved=False, fns=["cookie_factory be_u8/be_u16/be_u24, slice (&[u8] and Vec<u8>), gen, a &F serializer, Result::and_then"], bound="integers full domain; slice <= 3 bytes; Vec<u8> writer holding a 1-byte prefix")
+HARNESS["shim_cf_tuple"] = dict(kind="shim", proved=False, fns=["cookie_factory::sequence::tuple (arity 2, 3, 4, 6, 8; failing component)"], bound="one symbolic byte per component; Vec<u8> writer")
 for _h in _SER:
     _leaf(_h, {"leaf_ser_length_u24": "length_be_u24", "leaf_ser_length_u16": "length_be_u16"}.get(_h, "Serialize::serialize / gen_tls_* (" + _h.split("_ser_")[1] + ")"),
           {"leaf_ser_length_u24": "body length 0..70000 symbolic (content constant)", "leaf_ser_length_u16": "body length 0..65535 symbolic (content constant)"}.get(
@@ -334,11 +337,12 @@ PROPS = {
     ),
     "C09": dict(
         level="model_checking",
-        level_text="Kani contract harnesses (crate built with --features serialize): the bytes emitted for ClientHello, ServerHello (TLS 1.0-1.2 / SSLv3 / draft-18 forms), ClientKeyExchange (opaque, DH, ECDH), Finished, HelloRequest, the ChangeCipherSpec message, SNI and max-fragment-length extensions equal an independent reference encoder's bytes (so every emitted length field equals the byte length of what it prefixes), Finished / CCS are parsed back by the body parsers, every unsupported handshake variant / message kind / extension yields GenError::NotYetImplemented. The private length helpers length_be_u16 / length_be_u24 are verified for EVERY body length up to 65535 / 70000 bytes (across the 16-bit boundary). Contents are fully symbolic; list lengths are tiny and concrete (bounded). Round trip through the parsers follows by composition: the parser side of it - ClientHello / ServerHello for every legacy version and draft 18, ClientKeyExchange, Finished, HelloRequest decode exactly the RFC layout the reference encoder writes - is the Verus proof of units hellos / bodies, which this check runs too (the dispatcher units are run by C04/C05); the stand-in executes the round trip on 18 message shapes.",
-        level_note="NOT decided: TlsPlaintext record serialization and the supported_groups extension (cookie_factory `all(iter.map(..))` exhausts CBMC memory, measured), hellos with more than 2 ciphers / 1 compression / longer session ids or extension blocks (their length fields are produced by the same helpers and `len() as u8/u16` casts, which the harness pins only for the tiny shapes). Trusted: the reference encoder in /verif/kani/ser_c09.rs (hand-written from RFC 5246 7.4 / RFC 6066).",
-        technique="contract harnesses on the real serializer vs an independent reference encoder, Kani/CBMC",
-        kani=[dict(quick=_SER, features=["serialize"], target="kani-serialize", timeout=900)],
-        verus=["hellos", "bodies"],
+        level_text="Unbounded (Verus, unit serialize, on the real bodies of src/tls_serialize.rs, relative to the cookie-factory shim): WHICH BYTES each serializer emits, for every value and every length - length_be_u16 / length_be_u24 (a u16 / u24 prefix whose value is the byte count of exactly what follows: lemma_len16/24_consistent give it as len/256, len%256 ... for every body that fits the field), tagged_extension, HelloRequest, Finished, the three ClientKeyExchange forms and their dispatcher, session id and optional extension block, ServerHello (TLS 1.0-1.2 layout) and the draft-18 ServerHello field by field in RFC order, the ChangeCipherSpec message (the single byte 1), max_fragment_length, one SNI entry, one named group; and the three DISPATCHERS gen_tls_messagehandshake / gen_tls_message / gen_tls_extension: each supported variant goes to its own serializer and every other variant yields GenError::NotYetImplemented with nothing emitted. NOT in Verus (measured tool limit: Verus 0.2026.09.13 dies with an internal error when a fn item returning `impl Fn` is used as a function value, which is how `all(iter.map(gen))` / `many_ref(list, gen)` receive their element generators): gen_tls_clienthello, gen_tls_ext_sni, gen_tls_ext_elliptic_curves, gen_tls_extensions, gen_tls_plaintext - abstract outcomes in the unit, decided by the Kani harnesses and the stand-in only, which is why the level stays model_checking. Kani contract harnesses (crate built with --features serialize): the bytes emitted for ClientHello, ServerHello (TLS 1.0-1.2 / SSLv3 / draft-18 forms), ClientKeyExchange (opaque, DH, ECDH), Finished, HelloRequest, the ChangeCipherSpec message, SNI and max-fragment-length extensions equal an independent reference encoder's bytes, Finished / CCS are parsed back by the body parsers, every unsupported handshake variant / message kind / extension yields GenError::NotYetImplemented; length helpers for EVERY body length up to 65535 / 70000 bytes. Contents fully symbolic; list lengths tiny and concrete (bounded). Round trip through the parsers follows by composition: the parser side - ClientHello / ServerHello for every legacy version and draft 18, ClientKeyExchange, Finished, HelloRequest decode exactly the RFC layout - is the Verus proof of units hellos / bodies, which this check runs too; the stand-in executes the round trip on 18 message shapes.",
+        level_note="Verus part relative to verus/shim_cf.rs: cookie-factory's be_u8/be_u16/be_u24, slice, gen, tuple (one function per arity: R21), Vec<u8>'s io::Write never failing, `&F` being the serializer F, Result::and_then - assumptions there, obligations of Kani shim_cf_bytes / shim_cf_tuple on the real cookie-factory 0.3.3; rules R20 (SerializeFn alias written out), R21, R9 (closure signatures and contracts), R8 (From impls lifted), `ref` patterns on a reference scrutinee written without `ref` (default binding modes). NOT decided by Kani: TlsPlaintext record serialization and the supported_groups extension (cookie_factory `all(iter.map(..))` exhausts CBMC memory, measured; stand-in only), hellos with more than 2 ciphers / 1 compression. Trusted: the reference encoder in /verif/kani/ser_c09.rs (hand-written from RFC 5246 7.4 / RFC 6066).",
+        technique="contract-based deductive verification: Verus postconditions ('emits exactly these bytes') on the extracted serializer functions relative to a cookie-factory shim (unbounded) + Kani contract harnesses vs an independent reference encoder (bounded) + execution stand-in for the list-based serializers",
+        kani=[dict(quick=_SER + _SER_SHIMS, features=["serialize"], target="kani-serialize", timeout=900)],
+        verus=["serialize", "hellos", "bodies"],
+        paired={"serialize": ["leaf_ser_finished", "leaf_ser_cke_unknown", "leaf_ser_cke_dh", "leaf_ser_cke_ecdh", "fd_ser_hello_request", "fd_ser_ccs", "leaf_ser_server_hello_full", "leaf_ser_server_hello_d18_full", "leaf_ser_ext_max_fragment_length", "leaf_ser_length_u24", "leaf_ser_length_u16", "fd_ser_unsupported_0"]},
         standins=[dict(name="serializer_roundtrip", kind="bounded-execution", bound="342 handshake records of 1-2 messages from 18 shapes (every ServerHello legacy version with and without extensions, draft 18, ClientHello SSLv3..TLS1.2), the CCS record, 18 single messages, one SNI/max-fragment/groups extension list: length fields, complete parse-back, re-serialization of the parsed value byte for byte", payload={"serializer_roundtrip_check": 1})],
         explanation="see level_text",
     ),
